@@ -401,10 +401,10 @@ def deletePELFromPELId(path: str, pelID: str) -> None:
         print("PEL not found")
 
 
-def parseAndPrintPELFile(file_path: str, config: Config, exit_on_error: bool) -> None:
+def parseAndPrintPELFile(file_path: str, config: Config, exit_on_error: bool) -> bool:
     """
     Parses a PEL file and prints the JSON string representation.
-    Returns: None
+    Returns: True if the PEL was displayed, False otherwise.
     """
     try:
         with open(file_path, 'rb') as fd:
@@ -416,8 +416,10 @@ def parseAndPrintPELFile(file_path: str, config: Config, exit_on_error: bool) ->
                     print(json_string)        
                 else:
                     printPELInHexFormat(data)
+                return True
     except Exception as e:
         print(f"Exception: No PEL parsed for {file_path}: {e}", file=sys.stderr)
+    return False
 
 
 def parsePelFromID(path: str, config: Config) -> None:
@@ -865,8 +867,9 @@ def main():
         config.extension = args.extension
 
     if args.file:
-        parseAndPrintPELFile(args.file, config, True)
-        if args.clean:
+        displayed = parseAndPrintPELFile(args.file, config, True)
+        # Only delete what has actually been displayed.
+        if args.clean and displayed:
             os.remove(args.file)
         sys.exit(0)
 
